@@ -23,7 +23,7 @@ pub fn prop() -> Prop {
     Prop {
         id: "C10",
         level: "exploration",
-        rule: "proptest tapes decoding to a framebuffer configuration (7 raw widths x 2 data orders x sizes 9x3, 5x2, 8x2, 1x1 -- rows ending on and off a byte boundary -- and, one case in 25, 300x2 with exact N and, for two sizes, N = buffer_size + 3) and a history of 1..=24 operations from {set_pixel, draw_iter with several pixels, fill_solid, clear, draw a styled rectangle/circle/line/triangle, draw a raw image} with points inside and up to 3 pixels outside every edge and also far outside (i32 extremes). Oracle (model-based): a last-write map; after every operation pixel(p) == model for every p in the box plus a margin (zero colour if never written, None outside), data() equals the byte image computed from the model by an independent writer of the documented ImageRaw layout (so writes outside change no byte and surplus bytes stay 0), as_image() has the framebuffer's size, as_image().pixel == pixel, and drawing as_image() onto a recording target reproduces the model. Non-trivial: at least two writes landed at different x modulo the pixels per byte and one written pixel was overwritten with a different colour.",
+        rule: "proptest tapes decoding to a framebuffer configuration (7 raw widths x 2 data orders x sizes 9x3, 5x2, 8x2, 1x1 -- rows ending on and off a byte boundary -- and, one case in 25, 300x2 with exact N or 2x300 with one spare byte and, for two sizes, N = buffer_size + 3) and a history of 1..=24 operations from {set_pixel, draw_iter with several pixels, fill_solid, clear, draw a styled rectangle/circle/line/triangle, draw a raw image} with points inside and up to 3 pixels outside every edge and also far outside (i32 extremes). Oracle (model-based): a last-write map; after every operation pixel(p) == model for every p in the box plus a margin (zero colour if never written, None outside), data() equals the byte image computed from the model by an independent writer of the documented ImageRaw layout (so writes outside change no byte and surplus bytes stay 0), as_image() has the framebuffer's size, as_image().pixel == pixel, and drawing as_image() onto a recording target reproduces the model. Non-trivial: at least two writes landed at different x modulo the pixels per byte and one written pixel was overwritten with a different colour.",
         assumptions: vec![
             "framebuffer sizes are const generics, so a fixed list of sizes is instantiated",
             "the effect of a drawable on the model is taken from drawing it onto the unbounded recording target (pinned by C01) and keeping the points inside the framebuffer",
@@ -85,8 +85,9 @@ const fn bufsize(w: usize, h: usize, bpp: usize) -> usize {
 
 fn histories(d: &mut Dec, cx: &mut Cx) -> Res {
     let combo = d.u(0, 13);
-    // sizes 0..=5 equally likely; one case in 25 uses a 300x2 framebuffer (byte offsets beyond 255)
-    let size_sel = { let k = d.u(0, 24); if k == 24 { 6 } else { k % 6 } };
+    // sizes 0..=5 equally likely; one case in 25 uses a 300x2 or a 2x300 framebuffer (byte offsets and
+    // row numbers beyond 255)
+    let size_sel = { let k = d.u(0, 49); if k >= 48 { 6 + (k - 48) } else { k % 6 } };
     let be = combo % 2 == 1;
     macro_rules! sizes {
         ($c:ty, $r:ty, $o:ty, $bpp:expr) => {
@@ -97,6 +98,7 @@ fn histories(d: &mut Dec, cx: &mut Cx) -> Res {
                 3 => run::<$c, Framebuffer<$c, $r, $o, 8, 2, { bufsize(8, 2, $bpp) }>>(d, cx, $bpp, be, 8, 2, 0),
                 4 => run::<$c, Framebuffer<$c, $r, $o, 8, 2, { bufsize(8, 2, $bpp) + 3 }>>(d, cx, $bpp, be, 8, 2, 3),
                 6 => run::<$c, Framebuffer<$c, $r, $o, 300, 2, { bufsize(300, 2, $bpp) }>>(d, cx, $bpp, be, 300, 2, 0),
+                7 => run::<$c, Framebuffer<$c, $r, $o, 2, 300, { bufsize(2, 300, $bpp) + 1 }>>(d, cx, $bpp, be, 2, 300, 1),
                 _ => run::<$c, Framebuffer<$c, $r, $o, 1, 1, { bufsize(1, 1, $bpp) }>>(d, cx, $bpp, be, 1, 1, 0),
             }
         };
@@ -160,6 +162,9 @@ where
     let stride = (w as usize * bpp + 7) / 8;
     let used = stride * h as usize;
     let inside = |p: Point| p.x >= 0 && p.y >= 0 && p.x < w && p.y < h;
+    // the helper functions that applications use to size the buffer
+    let (bs, bsb) = (embedded_graphics::framebuffer::buffer_size::<C>(w as usize, h as usize), embedded_graphics::framebuffer::buffer_size_bpp(w as usize, h as usize, bpp));
+    ensure!(bs == used && bsb == used, "buffer_size", "buffer_size::<C>({}, {}) = {}, buffer_size_bpp(.., {}) = {}, rows padded to whole bytes need {}", w, h, bs, bpp, bsb, used);
     let nops = d.u(1, 24);
     let mut log: Vec<String> = vec![];
     let want = cx.want_desc;
